@@ -21,6 +21,8 @@ import (
 //	scionPayloadWindows          the byte strings handed to ntp.DecodePacket, nts.DecodePacket,
 //	                             nts.ProcessResponse and as Pld to spao.ComputeAuthCMAC in the receive loop
 //	clientStoreCookieCalls       number of StoreCookie calls in package core/client
+//	clientSocketBind{IP,SCION}   the address argument of the ListenPacket call that opens the socket of an
+//	                             exchange, e.g. "netip.AddrPortFrom(laddr, 0).String()" (the port is the literal 0)
 func init() {
 	registerLocals("core/client", func(files []*ast.File, fset *token.FileSet) []string {
 		show := func(n ast.Node) string {
@@ -192,6 +194,29 @@ func init() {
 			out = append(out, fmt.Sprintf("def scionPayloadWindows : String := %s", leanString(strings.Join(parts, " | "))))
 		} else {
 			broken("function SCIONClient.measureClockOffsetSCION not found (payload windows)")
+		}
+		for _, w := range []struct{ fn, tag string }{
+			{"IPClient.measureClockOffsetIP", "IP"},
+			{"SCIONClient.measureClockOffsetSCION", "SCION"},
+		} {
+			fd := findFunc(files, w.fn)
+			if fd == nil || fd.Body == nil {
+				continue // reported above
+			}
+			var binds []string
+			ast.Inspect(fd.Body, func(m ast.Node) bool {
+				if ce, ok := m.(*ast.CallExpr); ok {
+					if se, ok := ce.Fun.(*ast.SelectorExpr); ok && se.Sel.Name == "ListenPacket" && len(ce.Args) == 3 {
+						binds = append(binds, show(ce.Args[1])+","+show(ce.Args[2]))
+					}
+				}
+				return true
+			})
+			if len(binds) != 1 {
+				broken("%s: expected exactly one ListenPacket call opening the exchange's socket, found %d (the port the socket is bound to)", w.fn, len(binds))
+				continue
+			}
+			out = append(out, fmt.Sprintf("def clientSocketBind%s : String := %s", w.tag, leanString(binds[0])))
 		}
 		n := 0
 		for _, f := range files {
